@@ -205,7 +205,25 @@ fn main() {
                 writeln!(out, "scenario {name}").unwrap();
                 let _ = take_drops();
                 let res = std::panic::catch_unwind(std::panic::AssertUnwindSafe(|| {
-                if let Some(st) = ops.iter().find(|o| o[0] == "stress") {
+                if let Some(d) = ops.iter().find(|o| o[0] == "deep") {
+                    // a long chain released by one make_mut, on a thread with a small stack: the release must not recurse per node
+                    let t: Vec<&str> = d.iter().map(|s| s.as_str()).collect();
+                    let (n, stack) = (proto::kv_num(&t, "n"), proto::kv_num(&t, "stack"));
+                    let via2 = via.clone();
+                    out.flush().unwrap();
+                    let h = std::thread::Builder::new().stack_size(stack).spawn(move || {
+                        fn go<L: Lender>(mut l: L, n: usize) -> u64 {
+                            for i in 0..n { let _ = l.lend(0, i as u64 + 1); }
+                            let r = l.lend_mut(0, n as u64 + 1);
+                            drop(l);
+                            r
+                        }
+                        match via2.as_str() { "chain" => go(ValueChain::default(), n), _ => go(Unimock::new(()), n) }
+                    }).unwrap();
+                    let r = h.join().unwrap();
+                    let d = take_drops();
+                    writeln!(out, "deep n={} mut_serial={} dropped={}", n, r, d.split(',').filter(|x| !x.is_empty()).count()).unwrap();
+                } else if let Some(st) = ops.iter().find(|o| o[0] == "stress") {
                     let t: Vec<&str> = st.iter().map(|s| s.as_str()).collect();
                     let (threads, per, rounds) = (proto::kv_num(&t, "threads"), proto::kv_num(&t, "per"), proto::kv_num(&t, "rounds"));
                     match via.as_str() {
